@@ -32,6 +32,7 @@ def main():
     tier = a.tier if a.tier in ("quick", "thorough") else "quick"
     os.environ["VERIF_TIER_EFFECTIVE"] = tier
     os.environ["VERIF_TIER"] = tier
+    os.environ["VERIF_PROPERTY"] = pid          # a harness shared by two properties judges a replay by the one being checked
     mod = importlib.import_module("vlib.props." + pid.lower())
     run = core.Run(pid, tier)
     if tier == "thorough":
